@@ -41,6 +41,15 @@ pub fn profile_for(prop: &str, tier: &str) -> Profile {
     if tier == "thorough" {
         p.long_pct = 12;
     }
+    if cfg!(miri) {
+        // supplementary Miri leg: the interpreter is ~4 orders of magnitude slower, so a history is a dozen
+        // transactions of plain random operations (snapshots after every step dominate the cost)
+        p.long_pct = 0;
+        p.steps = (10, 14);
+        p.macro_pct = 0;
+        p.alias_pct = 0;
+        return p;
+    }
     match prop {
         "C08" => {
             p.faulted = true;
